@@ -139,6 +139,11 @@ func (c *Cache) isRemoved(src string) bool {
 func (c *Cache) Copy(src, dest string) error {
 	src = varutil.CleanPath(src)
 	dest = varutil.CleanPath(dest)
+	if src == dest || src == "." || src == "" || strings.HasPrefix(dest, src+"/") {
+		// the copy would read what it is writing (a file copied onto itself blocks on its own
+		// lock, a directory copied into itself never ends)
+		return goaterr.Errorf("Can not copy %s into itself (%s)", src, dest)
+	}
 	return (fshelper.Copier{
 		SrcFS:    c,
 		SrcPath:  src,
